@@ -2018,7 +2018,7 @@ static ASTNode *parse_primary(Stage1Parser *p) {
                         if (func_expr) free_ast(func_expr);
                         if (module_alias) free(module_alias);
                         if (qualified_func_name) free(qualified_func_name);
-                        if (first_expr && first_expr->type == AST_IDENTIFIER) {
+                        if (first_expr && !func_expr && first_expr->type == AST_IDENTIFIER) {
                             free(first_expr);  /* Don't use free_ast - we already extracted the identifier */
                         }
                         return NULL;
@@ -2035,7 +2035,7 @@ static ASTNode *parse_primary(Stage1Parser *p) {
                     if (func_expr) free_ast(func_expr);
                     if (module_alias) free(module_alias);
                     if (qualified_func_name) free(qualified_func_name);
-                    if (first_expr && first_expr->type == AST_IDENTIFIER) {
+                    if (first_expr && !func_expr && first_expr->type == AST_IDENTIFIER) {
                         free(first_expr);
                     }
                     return NULL;
